@@ -46,8 +46,13 @@ SHAPED = [
     "_convert_compare_op", "_convert_compare", "_convert_node", "_handle_body", "_tree_to_sbml", "_sbmlify_fn",
     "_escape_non_alphanumeric", "_convert_id_to_sbml", "_create_sbml_variables", "_create_sbml_derived_variables",
     "_create_derived_parameter", "_create_sbml_parameters", "_create_sbml_derived_parameters",
-    "_create_sbml_reactions", "_model_to_sbml", "write", "RE_TO_SBML", "SBML_DOT",
+    "_create_sbml_reactions", "_model_to_sbml", "write", "RE_TO_SBML", "SBML_DOT", "_sbml_ids",
 ]  # fmt: skip
+
+# functions that differ between "the math uses the model's names" (variant 0) and "the math uses the ids under which the
+# components are written" (variant 1, fixes/C08-escaped-names-in-math.diff; `_sbml_ids` exists only then)
+NAME_SENSITIVE = ["_sbmlify_fn", "_create_sbml_variables", "_create_sbml_derived_variables", "_create_derived_parameter",
+                  "_create_sbml_parameters", "_create_sbml_derived_parameters", "_create_sbml_reactions"]  # fmt: skip
 
 
 def kind_of(node: ast.expr) -> str:
@@ -76,9 +81,57 @@ class _Norm(ast.NodeTransformer):
         self.derived_role: list[str] = []
         self.ia_setters: list[str] = []
         self.in_derived_case = False
+        self.rename_modes: list[str] = []
+        self.ref_ids: list[str] = []
+        self.ref_counter_init = 0
+
+    RENAME_SIMULTANEOUS = ["argmap = dict(zip(fn_args, args, strict=True))", "IdentifierReplacer(argmap).visit(tree)"]
+    REF_PER_SPECIES = ["reference = f'{compound_id}ref'"]
+    REF_COUNTED = [
+        "n_references[compound_id] = n_references.get(compound_id, 0) + 1",
+        "reference = f'{compound_id}ref'",
+        "if n_references[compound_id] > 1:\n    reference = f'{reference}{n_references[compound_id]}'",
+    ]
+    REF_COUNTER_INIT = "n_references: dict[str, int] = {}"
+
+    @staticmethod
+    def _rename_mode(stmts: list[ast.stmt]) -> str:
+        """How the statements after `fn_args = [...]` rename the parameters: one pass with the whole map, or one
+        single-pair pass per (parameter, model name) pair (with or without skipping equal pairs)."""
+        src = [ast.unparse(x) for x in stmts]
+        if src == _Norm.RENAME_SIMULTANEOUS:
+            return "RenSimultaneous"
+        if len(stmts) == 1 and isinstance(stmts[0], ast.For) and not stmts[0].orelse:
+            loop = stmts[0]
+            if isinstance(loop.target, ast.Tuple) and len(loop.target.elts) == 2 and all(isinstance(e, ast.Name) for e in loop.target.elts) \
+                    and ast.unparse(loop.iter) == "zip(fn_args, args, strict=True)":  # fmt: skip
+                a, b = (e.id for e in loop.target.elts)
+                body = loop.body
+                if len(body) == 1 and isinstance(body[0], ast.If) and not body[0].orelse and ast.unparse(body[0].test) in (f"{a} != {b}", f"{b} != {a}"):
+                    body = body[0].body
+                if len(body) == 1 and ast.unparse(body[0]) == f"IdentifierReplacer({{{a}: {b}}}).visit(tree)":
+                    return "RenSequential"
+        return "RenUnknown"
+
+    def visit_If(self, node: ast.If):  # noqa: N802
+        if self.fname == "_tree_to_sbml" and ast.unparse(node.test) == "args is not None" and not node.orelse and node.body \
+                and ast.unparse(node.body[0]) == "fn_args = [i.arg for i in tree.args.args]":  # fmt: skip
+            self.rename_modes.append(self._rename_mode(node.body[1:]))
+            node.body = [node.body[0], ast.Expr(ast.Name("RENAME_PARAMETERS", ast.Load()))]
+            return node
+        self.generic_visit(node)
+        return node
 
     def visit_FunctionDef(self, node: ast.FunctionDef):  # noqa: N802
         node.body = _strip_doc(node.body)
+        if self.fname == "_create_sbml_reactions":
+            keep = []
+            for st in node.body:
+                if ast.unparse(st) == self.REF_COUNTER_INIT:
+                    self.ref_counter_init += 1
+                else:
+                    keep.append(st)
+            node.body = keep
         node.returns = None
         for a in node.args.args + node.args.kwonlyargs:
             a.annotation = None
@@ -93,6 +146,14 @@ class _Norm(ast.NodeTransformer):
         if self.fname == "_create_sbml_reactions" and subj == "factor":
             for case in node.cases:
                 self.in_derived_case = ast.unparse(case.pattern) == "Derived()"
+                if self.in_derived_case:
+                    # the statements that compute the reference id, up to the creation of its assignment rule
+                    srcs = [ast.unparse(x) for x in case.body]
+                    calls = [c for c in ("_create_derived_parameter(sbml_model, reference, factor)", "_create_derived_parameter(sbml_model, reference, factor, ids)") if c in srcs]
+                    if len(calls) == 1:
+                        k = srcs.index(calls[0])
+                        self.ref_ids.append("RefPerSpecies" if srcs[:k] == self.REF_PER_SPECIES else "RefCounted" if srcs[:k] == self.REF_COUNTED else "RefUnknown")
+                        case.body = [ast.Expr(ast.Name("REFERENCE_ID", ast.Load())), *case.body[k:]]
                 for i, s in enumerate(case.body):
                     case.body[i] = self.visit(s)
                 self.in_derived_case = False
@@ -140,8 +201,11 @@ class _Norm(ast.NodeTransformer):
         if (
             self.fname in ("_create_sbml_variables", "_create_sbml_parameters") and f.startswith("ar.set")
             and f not in ("ar.setId", "ar.setName", "ar.setMath") and len(node.args) == 1
-            and ast.unparse(node.args[0]) == "_convert_id_to_sbml(id_=name, prefix='IA')"
+            and ast.unparse(node.args[0]) in ("_convert_id_to_sbml(id_=name, prefix='IA')",
+                                              "_convert_id_to_sbml(id_=name, prefix='%s')" % {"_create_sbml_variables": "CPD", "_create_sbml_parameters": "PAR"}[self.fname])
         ):  # fmt: skip
+            # the symbol of an initial assignment: prefix 'IA' (equal to the component's id only for names that get no
+            # prefix) or the prefix of the component itself (part of the pinned shape, see fact math_names)
             self.ia_setters.append(f[3:])
             node.func = ast.Name("IA_SETTER", ast.Load())
         return node
@@ -207,7 +271,7 @@ def extract(src_path: Path | None = None) -> dict:
         "ifexp_order": ["CUnknownChild"], "compare": "CmpUnknown", "call_fallback": "CallUnknown",
         "call_arity": False, "call_kw_reject": False, "unary_qual": None, "lib_parents": [], "attr_consts": [],
         "derived_role": "RoleUnknown", "num_stoich": "NsUnknown", "ia_setter": "IaUnknown",
-        "shapes_ok": False, "unrecognised": [],
+        "rename": "RenUnknown", "ref_id": "RefUnknown", "math_names": "MathNamesUnknown", "shapes_ok": False, "unrecognised": [],
     }  # fmt: skip
     try:
         tree = ast.parse(path.read_text())
@@ -284,6 +348,19 @@ def extract(src_path: Path | None = None) -> dict:
         if n.derived_role in (["Reactant"], ["Product"]):
             facts["derived_role"] = n.derived_role[0]
         facts["num_stoich"] = "NsSignAbs"  # part of the pinned shape
+        # id of the species reference / assignment rule of a computed coefficient; the counter needs its initialisation
+        if n.ref_ids == ["RefPerSpecies"] and n.ref_counter_init == 0:
+            facts["ref_id"] = "RefPerSpecies"
+        elif n.ref_ids == ["RefCounted"] and n.ref_counter_init == 1:
+            facts["ref_id"] = "RefCounted"
+    if facts["ref_id"] == "RefUnknown":
+        facts["unrecognised"].append("reference id of computed coefficients")
+    # parameter renaming of _tree_to_sbml
+    n = norms.get("_tree_to_sbml")
+    if n is not None and variant.get("_tree_to_sbml") is not None and len(n.rename_modes) == 1:
+        facts["rename"] = n.rename_modes[0]
+    if facts["rename"] == "RenUnknown":
+        facts["unrecognised"].append("parameter renaming of _tree_to_sbml")
     # initial assignments
     setters = []
     for fn in ("_create_sbml_variables", "_create_sbml_parameters"):
@@ -292,9 +369,59 @@ def extract(src_path: Path | None = None) -> dict:
             setters += n.ia_setters
     if len(setters) == 2 and len(set(setters)) == 1:
         facts["ia_setter"] = {"setVariable": "IaSetVariable", "setSymbol": "IaSetSymbol"}.get(setters[0], "IaUnknown")
+    # identifiers inside the math: the model's names, or the ids under which the components are written
+    vs = [variant.get(n) for n in NAME_SENSITIVE]
+    if all(v == 0 for v in vs) and variant.get("_sbml_ids") == -1:
+        facts["math_names"] = "MathRawNames"
+    elif all(v == 1 for v in vs) and variant.get("_sbml_ids") == 1:
+        facts["math_names"] = "MathIds"
+    else:
+        facts["unrecognised"].append("identifiers inside the math (raw names / ids)")
     facts["shapes_ok"] = not facts["unrecognised"]
     facts["variants"] = {k: v for k, v in variant.items()}
     return facts
+
+
+IMPORT_SHAPED = ["read", "import_from_path"]
+
+
+def import_shapes(path: Path) -> dict[str, str]:
+    tree = ast.parse(path.read_text())
+    out = {}
+    for node in tree.body:
+        if isinstance(node, ast.FunctionDef) and node.name in IMPORT_SHAPED:
+            n = _Norm("import:" + node.name)
+            node2 = n.visit(copy.deepcopy(node))
+            ast.fix_missing_locations(node2)
+            out[node.name] = ast.unparse(node2)
+    return out
+
+
+def extract_import(src_path: Path | None = None) -> dict:
+    """src/mxlpy/sbml/_import.py: does read() parse the file every time, and how is the generated module loaded?
+    Shapes (harness/c08_shapes.json, keys "import:read" / "import:import_from_path"): read = parse, generate, import on
+    every call; import_from_path variant 0 = spec.loader.exec_module (byte code cached by the source loader is trusted),
+    variant 1 = the source just written is compiled and executed.  Anything else: *Unknown / shapes_ok = false."""
+    path = src_path or (common.REPO / "src/mxlpy/sbml/_import.py")
+    f = {"read": "ReadUnknown", "loader": "LoaderUnknown", "shapes_ok": False, "unrecognised": []}
+    try:
+        shapes = import_shapes(path)
+    except (OSError, SyntaxError) as e:
+        f["unrecognised"].append(f"cannot parse {path}: {e}")
+        return f
+    known = json.loads(SHAPES_FILE.read_text())
+    if shapes.get("read") in known.get("import:read", []):
+        f["read"] = "ReadParseAlways"
+    else:
+        f["unrecognised"].append("read")
+    opts = known.get("import:import_from_path", [])
+    have = shapes.get("import_from_path")
+    if have in opts:
+        f["loader"] = ["LoaderSourceCached", "LoaderCompileSource"][opts.index(have)] if opts.index(have) < 2 else "LoaderUnknown"
+    if f["loader"] == "LoaderUnknown":
+        f["unrecognised"].append("import_from_path")
+    f["shapes_ok"] = not f["unrecognised"]
+    return f
 
 
 def record_shapes(paths: list[Path]) -> None:
@@ -320,7 +447,9 @@ def _pairs(tab, key=lambda k: common.cstr(k)) -> str:
     return common.clist(f"({key(k)}, {v})" for k, v in tab)
 
 
-def to_coq(f: dict) -> str:
+def to_coq(f: dict, imp: dict | None = None) -> str:
+    imp = imp or {"read": "ReadUnknown", "loader": "LoaderUnknown", "shapes_ok": False}
+
     def optab(tab, unknown):
         if tab is None:
             return f"[({unknown}, K_OTHER)]"
@@ -340,7 +469,9 @@ def to_coq(f: dict) -> str:
         "(* REGENERATED from src/mxlpy/sbml/_export.py by harness/c08_extract.py; do not edit.\n"
         "   Unrecognised code yields *Unknown / K_OTHER / f_shapes_ok = false, which breaks C08_facts_pinned. *)\n"
         "From Coq Require Import ZArith QArith List Bool String.\nImport ListNotations.\n"
-        "From SbmlExp Require Import SbmlMath.\n"
+        "From SbmlExp Require Import SbmlMath SbmlSession.\n"
+        "(* src/mxlpy/sbml/_import.py: read() and import_from_path *)\n"
+        f"Definition gen_import_facts : import_facts := mkImportFacts {imp['read']} {imp['loader']} {common.cbool(imp['shapes_ok'])}.\n"
         "Definition gen_facts : facts := mkFacts\n"
         f"  {stab(f['unary'])}\n  {stab(f['binary'])}\n  {stab(f['nary'])}\n"
         f"  {optab(f['unop'], 'UInvert')}\n  {optab(f['binop'], 'BOtherBin')}\n  {optab(f['cmpop'], 'COtherCmp')}\n"
@@ -348,5 +479,5 @@ def to_coq(f: dict) -> str:
         f"  {qtab(f['unary_qual'])}\n"
         f"  {common.clist(common.cstr(p) for p in f['lib_parents'])}\n"
         f"  {common.clist('(' + common.cstr(k) + ', ' + v + ')' for k, v in f['attr_consts'])}\n"
-        f"  {f['derived_role']} {f['num_stoich']} {f['ia_setter']} {common.cbool(f['shapes_ok'])}.\n"
+        f"  {f['derived_role']} {f['num_stoich']} {f['ia_setter']} {f['rename']} {f['ref_id']} {f['math_names']} {common.cbool(f['shapes_ok'])}.\n"
     )
